@@ -4,6 +4,7 @@
   events in order, every byte written is covered by a later flush (or unmapped) before control
   returns to the user (`ret`).
 -/
+import InjModel.Generated.Layout
 import InjModel.Props.C02
 namespace Inj.Props
 open Inj Inj.Machine
@@ -40,8 +41,13 @@ example : dirtyAfter [] [Event.write 100 [1, 2, 3], Event.ret] = none := by deci
 example : dirtyAfter [] [Event.write 100 [1, 2, 3], Event.flush 100 102, Event.ret] = none := by decide
 example : dirtyAfter [] [Event.write 100 [1, 2, 3], Event.flush 100 103, Event.ret] = some [] := by decide
 
+/-- the model's state is complete for the back ends: `injector_core` declares no process-wide or
+    thread-local mutable state (regenerated from the source on every run) -/
+theorem C17_state_modelled : Generated.Layout.coreStatics = [] := by decide
+
 end Inj.Props
 
 #print axioms Inj.Props.C17_covers
 #print axioms Inj.Props.C17_each_install
 #print axioms Inj.Props.C17_each_restore
+#print axioms Inj.Props.C17_state_modelled
